@@ -52,7 +52,8 @@ theorem step_inv (g : Graph N) (d : N → Bool) (f : Nat → N → List R → Ex
     Closed g d f0 (step g d f s).state.memo ∧ StackOK d (step g d f s).state.stack ∧
     (step g d f s).state.stack.length + (step g d f s).state.iters + s.pushes
         = s.stack.length + s.iters + (step g d f s).state.pushes ∧
-    s.pushes ≤ (step g d f s).state.pushes ∧ (step g d f s).state.iters ≤ s.iters + 1 := by
+    s.pushes ≤ (step g d f s).state.pushes ∧ (step g d f s).state.iters ≤ s.iters + 1 ∧
+    s.iters ≤ (step g d f s).state.iters := by
   rcases s with ⟨st, m, tr, p, it⟩
   cases st with
   | nil => simp [step, Res.state]; exact ⟨hc, hs⟩
@@ -103,6 +104,232 @@ theorem step_inv (g : Graph N) (d : N → Bool) (f : Nat → N → List R → Ex
         · cases h
         · exact hdn'
         · exact hs' x h
+
+
+theorem closed_empty (g : Graph N) (d : N → Bool) (f0 : N → List R → Except E R) :
+    Closed g d f0 (MemoLike.empty : M) := by
+  constructor
+  · intro n r h; rw [LawfulMemo.look_empty] at h; cases h
+  · intro n h; rw [LawfulMemo.look_empty] at h; cases h
+
+/-- Any number of loop iterations, whatever the callback does. -/
+theorem iter_inv (g : Graph N) (d : N → Bool) (f : Nat → N → List R → Except E R) (f0 : N → List R → Except E R)
+    (hf : Refines f f0) (k : Nat) (s : WState M N) (hc : Closed g d f0 s.memo) (hs : StackOK d s.stack) :
+    Closed g d f0 (iter g d f k s).state.memo ∧ StackOK d (iter g d f k s).state.stack ∧
+    (iter g d f k s).state.stack.length + (iter g d f k s).state.iters + s.pushes
+        = s.stack.length + s.iters + (iter g d f k s).state.pushes ∧
+    s.pushes ≤ (iter g d f k s).state.pushes ∧ (iter g d f k s).state.iters ≤ s.iters + k ∧
+    s.iters ≤ (iter g d f k s).state.iters := by
+  induction k generalizing s with
+  | zero => simp [iter, Res.state]; exact ⟨hc, hs⟩
+  | succ k ih =>
+    obtain ⟨h1, h2, h3, h4, h5, h6⟩ := step_inv g d f f0 hf s hc hs
+    rw [iter_succ]
+    cases hst : step g d f s with
+    | fail e s' =>
+      rw [hst] at h1 h2 h3 h4 h5 h6
+      simp only [Res.state] at h1 h2 h3 h4 h5 h6 ⊢
+      exact ⟨h1, h2, h3, h4, by omega, h6⟩
+    | run s' =>
+      rw [hst] at h1 h2 h3 h4 h5 h6
+      simp only [Res.state] at h1 h2 h3 h4 h5 h6
+      obtain ⟨i1, i2, i3, i4, i5, i6⟩ := ih s' h1 h2
+      dsimp only
+      exact ⟨i1, i2, by omega, by omega, by omega, by omega⟩
+
+theorem iter_pushes_mono (g : Graph N) (d : N → Bool) (f : Nat → N → List R → Except E R)
+    (f0 : N → List R → Except E R) (hf : Refines f f0) (a b : Nat) (s : WState M N)
+    (hc : Closed g d f0 s.memo) (hs : StackOK d s.stack) :
+    (iter g d f a s).state.pushes ≤ (iter g d f (a + b) s).state.pushes := by
+  rw [iter_add]
+  obtain ⟨h1, h2, _, _, _, _⟩ := iter_inv g d f f0 hf a s hc hs
+  cases h : iter g d f a s with
+  | fail e s' => simp [Res.bind, Res.state]
+  | run s' =>
+    rw [h] at h1 h2
+    simp only [Res.bind, Res.state] at h1 h2 ⊢
+    exact (iter_inv g d f f0 hf b s' h1 h2).2.2.2.1
+
+/-! ### edges -/
+
+theorem cost_erase (g : Graph N) (x : N) (V : List N) (h : x ∈ V) :
+    cost g V = (g.children x).length + cost g (V.erase x) := by
+  induction V with
+  | nil => cases h
+  | cons v V ih =>
+    by_cases hv : v = x
+    · subst hv; simp [cost_cons]
+    · have hx : x ∈ V := by
+        rcases List.mem_cons.mp h with h' | h'
+        · exact absurd h'.symm hv
+        · exact h'
+      have : (v == x) = false := by simp [hv]
+      rw [List.erase_cons_tail (by simp [hv]), cost_cons, cost_cons, ih hx]; omega
+
+/-- a duplicate-free list of nodes of `V` has at most as many outgoing edges as `V` -/
+theorem cost_le (g : Graph N) (l V : List N) (hnd : l.Nodup) (hsub : ∀ x ∈ l, x ∈ V) : cost g l ≤ cost g V := by
+  induction l generalizing V with
+  | nil => simp [cost_nil]
+  | cons x l ih =>
+    have hx : x ∈ V := hsub x List.mem_cons_self
+    obtain ⟨hxl, hnd'⟩ := List.nodup_cons.mp hnd
+    have : ∀ y ∈ l, y ∈ V.erase x := by
+      intro y hy
+      have hne : y ≠ x := fun h => hxl (h ▸ hy)
+      exact (List.mem_erase_of_ne hne).mpr (hsub y (List.mem_cons_of_mem _ hy))
+    have := ih (V.erase x) hnd' this
+    rw [cost_cons, cost_erase g x V hx]; omega
+
+
+/-! ### `walk` -/
+
+/-- the state in which `iter_walk` enters the loop (walker idle: empty stack) -/
+def root (n : N) (s : WState M N) : WState M N := ⟨[(false, n)], s.memo, s.trace, s.pushes + 1, s.iters⟩
+
+/-- what `walk` makes of the loop's result -/
+def finish (inval : Bool) (n : N) : Res E M N → WOut E R × WState M N
+  | .fail e s2 => (.raise e, cleanup inval 0 s2)
+  | .run s2 =>
+    match s2.stack with
+    | _ :: _ => (.fuel, cleanup inval 0 s2)
+    | [] =>
+      match look s2.memo n with
+      | some r => (.ok r, cleanup inval 0 s2)
+      | none => (.raise .key, cleanup inval 0 s2)
+
+theorem walk_hit (g : Graph N) (d : N → Bool) (f : Nat → N → List R → Except E R) (inval : Bool) (fuel : Nat)
+    (n : N) (s : WState M N) (r : R) (h : look s.memo n = some r) :
+    walk g d f inval true fuel n s = (.ok r, s) := by
+  unfold walk; simp [h]
+
+theorem walk_miss (g : Graph N) (d : N → Bool) (f : Nat → N → List R → Except E R) (inval shortcut : Bool)
+    (fuel : Nat) (n : N) (s : WState M N) (hs : s.stack = [])
+    (h : (if shortcut then look s.memo n else none) = none) :
+    walk g d f inval shortcut fuel n s = finish inval n (iter g d f fuel (root n s)) := by
+  unfold walk
+  rw [h]
+  simp only [hs, List.length_nil]
+  unfold finish root
+  cases iter g d f fuel ⟨[(false, n)], s.memo, s.trace, s.pushes + 1, s.iters⟩ with
+  | fail e s2 => rfl
+  | run s2 =>
+    simp only []
+    cases s2.stack with
+    | nil => simp only []; cases look s2.memo n <;> rfl
+    | cons _ _ => rfl
+
+theorem finish_state (inval : Bool) (n : N) (r : Res E M N) :
+    (finish (R := R) inval n r).2 = cleanup inval 0 r.state := by
+  unfold finish
+  cases r with
+  | fail e s2 => rfl
+  | run s2 =>
+    simp only [Res.state]
+    cases s2.stack with
+    | nil => simp only []; cases look s2.memo n <;> rfl
+    | cons _ _ => rfl
+
+theorem cleanup_zero_stack (inval : Bool) (s : WState M N) : (cleanup inval 0 s).stack = [] := by
+  simp [cleanup]
+
+theorem cleanup_closed (g : Graph N) (d : N → Bool) (f0 : N → List R → Except E R) (inval : Bool) (k : Nat)
+    (s : WState M N) (hc : Closed g d f0 s.memo) : Closed g d f0 (cleanup inval k s).memo := by
+  unfold cleanup
+  cases inval
+  · exact hc
+  · exact closed_empty g d f0
+
+theorem stackOK_root (d : N → Bool) (n : N) : StackOK d [(false, n)] := by
+  intro x hx; simp at hx
+
+/-- **C15** (`walk_fail_restores`).  Whatever the callbacks do -- return, raise, raise at the k-th invocation --
+    and whatever the outcome of the call, `walk` leaves the walker idle (empty work stack) with a memo that is
+    correct and closed under children. -/
+theorem walk_post (g : Graph N) (d : N → Bool) (f : Nat → N → List R → Except E R) (f0 : N → List R → Except E R)
+    (hf : Refines f f0) (inval shortcut : Bool) (fuel : Nat) (n : N) (s : WState M N)
+    (hc : Closed g d f0 s.memo) (hs : s.stack = []) :
+    (walk g d f inval shortcut fuel n s).2.stack = [] ∧
+    Closed g d f0 (walk g d f inval shortcut fuel n s).2.memo := by
+  cases h : (if shortcut then look s.memo n else none) with
+  | some r =>
+    have : walk g d f inval shortcut fuel n s = (.ok r, s) := by unfold walk; rw [h]
+    rw [this]; exact ⟨hs, hc⟩
+  | none =>
+    rw [walk_miss g d f inval shortcut fuel n s hs h, finish_state]
+    refine ⟨cleanup_zero_stack _ _, cleanup_closed g d f0 _ _ _ ?_⟩
+    exact (iter_inv g d f f0 hf fuel (root n s) hc (stackOK_root d n)).1
+
+/-- a value returned by `walk` is the specified one, whatever faults are injected elsewhere -/
+theorem walk_ok_sound (g : Graph N) (d : N → Bool) (f : Nat → N → List R → Except E R)
+    (f0 : N → List R → Except E R) (hf : Refines f f0) (inval shortcut : Bool) (fuel : Nat) (n : N)
+    (s : WState M N) (hc : Closed g d f0 s.memo) (hs : s.stack = []) (r : R)
+    (hr : (walk g d f inval shortcut fuel n s).1 = .ok r) : spec g d f0 n = .ok r := by
+  cases h : (if shortcut then look s.memo n else none) with
+  | some r' =>
+    have : walk g d f inval shortcut fuel n s = (.ok r', s) := by unfold walk; rw [h]
+    rw [this] at hr
+    cases hr
+    cases shortcut
+    · simp at h
+    · simp at h; exact hc.ok n r h
+  | none =>
+    rw [walk_miss g d f inval shortcut fuel n s hs h] at hr
+    have hinv := (iter_inv g d f f0 hf fuel (root n s) hc (stackOK_root d n)).1
+    unfold finish at hr
+    cases hi : iter g d f fuel (root n s) with
+    | fail e s2 => rw [hi] at hr; cases hr
+    | run s2 =>
+      rw [hi] at hr hinv
+      simp only [Res.state] at hinv
+      simp only [] at hr
+      cases hst : s2.stack with
+      | cons _ _ => rw [hst] at hr; cases hr
+      | nil =>
+        rw [hst] at hr
+        simp only [] at hr
+        cases hl : look s2.memo n with
+        | none => rw [hl] at hr; cases hr
+        | some r' => rw [hl] at hr; cases hr; exact hinv.ok n r hl
+
+/-- the translation of the specification's outcome into `walk`'s -/
+def ofSpec : Except E R → WOut E R
+  | .ok r => .ok r
+  | .error e => .raise (.cb e)
+
+/-- The facts about one `walk` with a functional callback from an idle walker, in one package. -/
+theorem walk_run (g : Graph N) (d : N → Bool) (f0 : N → List R → Except E R) (n : N) (s : WState M N)
+    (hc : Closed g d f0 s.memo) :
+    ∃ j new vis, new.Nodup ∧ (∀ x ∈ new, look s.memo x = none ∧ Desc g d n x) ∧
+      vis.Nodup ∧ (∀ x ∈ vis, look s.memo x = none ∧ Desc g d n x) ∧ j ≤ 2 + 2 * cost g vis ∧
+      ((∃ r m' p', spec g d f0 n = .ok r ∧ vis = new ∧
+          iter g d (fun _ => f0) j (root n s) = .run ⟨[], m', new ++ s.trace, p', s.iters + j⟩ ∧
+          p' ≤ s.pushes + 2 + 2 * cost g new ∧ look m' n = some r ∧ Closed g d f0 m' ∧
+          (∀ x, (look m' x).isSome ↔ ((look s.memo x).isSome ∨ x ∈ new))) ∨
+       (∃ e s', spec g d f0 n = .error e ∧ iter g d (fun _ => f0) j (root n s) = .fail (.cb e) s' ∧
+          s'.pushes ≤ s.pushes + 2 + 2 * cost g vis)) := by
+  obtain ⟨j, new, m', vis, nd, fr, dom, _, hm', ⟨vnd, vfr, b⟩, o⟩ :=
+    run_expand g d f0 (g.rank n + 1) n (Nat.lt_succ_self _) [] s.memo s.trace (s.pushes + 1) s.iters hc
+  have single : ∀ {l : List N}, (∀ x ∈ l, look s.memo x = none ∧ ∃ r ∈ [n], Desc g d r x) →
+      ∀ x ∈ l, look s.memo x = none ∧ Desc g d n x := by
+    intro l h x hx
+    obtain ⟨h1, r, hr, hd⟩ := h x hx
+    simp only [List.mem_singleton] at hr; subst hr
+    exact ⟨h1, hd⟩
+  refine ⟨j, new, vis, nd, single fr, vnd, single vfr, by simpa using b, ?_⟩
+  simp only [Outcome, collect] at o
+  cases hsp : spec g d f0 n with
+  | error e =>
+    rw [hsp] at o
+    obtain ⟨s', h1, h2⟩ := o
+    exact Or.inr ⟨e, s', rfl, h1, by simp only [List.length_cons, List.length_nil] at h2; omega⟩
+  | ok r =>
+    rw [hsp] at o
+    obtain ⟨hv, p', h1, h2, h3⟩ := o
+    have hl := h3 n List.mem_cons_self
+    obtain ⟨r', hr'⟩ := Option.isSome_iff_exists.mp hl
+    have : r' = r := by have := hm'.ok n r' hr'; rw [hsp] at this; cases this; rfl
+    subst this
+    exact Or.inl ⟨r', m', p', rfl, hv, h1, by simp only [List.length_cons, List.length_nil] at h2; omega, hr', hm', dom⟩
 
 end
 end PySMT.Walker
